@@ -748,7 +748,9 @@ impl RdfPlanner {
         let predicate = self.component_to_term(&insert.predicate)?;
         let object = self.component_to_term(&insert.object)?;
 
-        let triple = Triple::new(subject, predicate, object);
+        let triple = well_formed_triple(subject, predicate, object).ok_or_else(|| {
+            Error::Internal("INSERT DATA: subject must be an IRI or blank node and predicate an IRI".to_string())
+        })?;
         let operator = Box::new(RdfInsertTripleOperator::new(
             Arc::clone(&self.store),
             triple,
@@ -827,7 +829,9 @@ impl RdfPlanner {
         let predicate = self.component_to_term(&delete.predicate)?;
         let object = self.component_to_term(&delete.object)?;
 
-        let triple = Triple::new(subject, predicate, object);
+        let triple = well_formed_triple(subject, predicate, object).ok_or_else(|| {
+            Error::Internal("DELETE DATA: subject must be an IRI or blank node and predicate an IRI".to_string())
+        })?;
         let operator = Box::new(RdfDeleteTripleOperator::new(
             Arc::clone(&self.store),
             triple,
@@ -1075,8 +1079,10 @@ impl Operator for RdfInsertPatternOperator {
                 let predicate = self.resolve_component(&self.predicate, &chunk, row);
                 let object = self.resolve_component(&self.object, &chunk, row);
 
-                if let (Some(s), Some(p), Some(o)) = (subject, predicate, object) {
-                    triples_to_insert.push(Triple::new(s, p, o));
+                if let (Some(s), Some(p), Some(o)) = (subject, predicate, object)
+                    && let Some(triple) = well_formed_triple(s, p, o)
+                {
+                    triples_to_insert.push(triple);
                 }
             }
         }
@@ -1270,8 +1276,10 @@ impl Operator for RdfDeletePatternOperator {
                 let predicate = self.resolve_component(&self.predicate, &chunk, row);
                 let object = self.resolve_component(&self.object, &chunk, row);
 
-                if let (Some(s), Some(p), Some(o)) = (subject, predicate, object) {
-                    triples_to_delete.push(Triple::new(s, p, o));
+                if let (Some(s), Some(p), Some(o)) = (subject, predicate, object)
+                    && let Some(triple) = well_formed_triple(s, p, o)
+                {
+                    triples_to_delete.push(triple);
                 }
             }
         }
@@ -1503,8 +1511,9 @@ impl Operator for RdfModifyOperator {
                 let predicate = self.resolve_component(&template.predicate, chunk, *row);
                 let object = self.resolve_component(&template.object, chunk, *row);
 
-                if let (Some(s), Some(p), Some(o)) = (subject, predicate, object) {
-                    let triple = Triple::new(s, p, o);
+                if let (Some(s), Some(p), Some(o)) = (subject, predicate, object)
+                    && let Some(triple) = well_formed_triple(s, p, o)
+                {
                     self.store.remove(&triple);
                 }
             }
@@ -1517,8 +1526,9 @@ impl Operator for RdfModifyOperator {
                 let predicate = self.resolve_component(&template.predicate, chunk, *row);
                 let object = self.resolve_component(&template.object, chunk, *row);
 
-                if let (Some(s), Some(p), Some(o)) = (subject, predicate, object) {
-                    let triple = Triple::new(s, p, o);
+                if let (Some(s), Some(p), Some(o)) = (subject, predicate, object)
+                    && let Some(triple) = well_formed_triple(s, p, o)
+                {
                     self.store.insert(triple);
                 }
             }
@@ -2475,6 +2485,16 @@ fn component_to_term(component: &TripleComponent) -> Option<Term> {
             Value::Bool(b) => Some(Term::typed_literal(b.to_string(), Literal::XSD_BOOLEAN)),
             _ => Some(Term::literal(value.to_string())),
         },
+    }
+}
+
+/// Builds a triple from instantiated terms. An instantiation that is not a legal RDF triple
+/// (literal subject, non-IRI predicate) yields `None`: SPARQL does not include such triples.
+fn well_formed_triple(subject: Term, predicate: Term, object: Term) -> Option<Triple> {
+    if (subject.is_iri() || subject.is_blank_node()) && predicate.is_iri() {
+        Some(Triple::new(subject, predicate, object))
+    } else {
+        None
     }
 }
 
